@@ -14,7 +14,7 @@ use std::{
 use compio_executor::{Executor, ExecutorConfig};
 use vcommon::{Args, Report, Rng, Value, json, panics};
 
-use super::{Beh, Env, FlagWaker, H, Joined, OwnerWaker, World, end_state, finish_accounting};
+use super::{Beh, Env, FlagWaker, Joined, OwnerWaker, World, end_state, finish_accounting};
 
 #[derive(Clone, Debug)]
 pub(crate) enum Op {
@@ -459,7 +459,7 @@ fn run(prog: &Prog, no_panics: bool) -> RunOut {
 pub(crate) fn evaluate(prog: &Prog, rep: &mut Report, leg: &str) -> bool {
     let replay = || json!({"kind": "st", "prog": prog.to_json(), "reps": 1});
     let sh = prog.shape.as_str();
-    let mut run_caught = |no_panics: bool, rep: &mut Report| -> Option<RunOut> {
+    let run_caught = |no_panics: bool, rep: &mut Report| -> Option<RunOut> {
         match panics::catch(|| run(prog, no_panics)) {
             Ok(o) => Some(o),
             Err(info) => {
